@@ -87,8 +87,9 @@ func EncodeWithColor(content string, includeChecksum bool, fullASCIIMode bool, c
 		return nil, errors.New("invalid data! content may not contain '*'")
 	}
 
-	data := content + string(getChecksum(content, 20))
+	data := content
 	if includeChecksum {
+		data += string(getChecksum(data, 20))
 		data += string(getChecksum(data, 15))
 	}
 
